@@ -489,7 +489,7 @@ func (vm *Type) Run(retResult bool) (value.Type, error) {
 
 		case bytecode.READ:
 			line, err := vm.stdin.ReadString('\n')
-			if err != nil {
+			if err != nil && line == "" {
 				return vm.dumpStack(ctxp, ip, fmt.Errorf("read error %w", err))
 			}
 			m.Push(value.NewString(line))
